@@ -173,13 +173,17 @@ def strat():
 
     @st.composite
     def case(draw):
-        T = draw(st.integers(1, 10))
-        C = draw(st.integers(2, 5))
+        big = draw(st.integers(0, 9)) == 0          # a line of realistic length
+        T = draw(st.integers(60, 250)) if big else draw(st.integers(1, 10))
+        C = draw(st.integers(3, 9)) if big else draw(st.integers(2, 5))
         blank = draw(st.integers(0, C - 1))
         kind = draw(st.sampled_from(["float", "float", "int", "int01", "huge", "tiny"]))
         pinf = draw(st.sampled_from([0.0, 0.0, 0.15, 0.4]))
         rows = []
-        for _ in range(T):
+        if big:
+            rs_big = np.random.RandomState(draw(st.integers(0, 2 ** 31 - 1)))
+            rows = rs_big.uniform(0, 20, size=(T, C)).tolist()
+        for _ in range(0 if big else T):
             r = []
             for _ in range(C):
                 if pinf and draw(st.floats(0, 1)) < pinf:
@@ -200,6 +204,8 @@ def strat():
             cost = cost.astype(np.float32).astype(np.float64)      # float32-representable values: also run as float32 below
         nonblank = [c for c in range(C) if c != blank]
         L = draw(st.integers(1, T + 2)) if draw(st.integers(0, 3)) == 0 else draw(st.integers(1, max(1, T - 1)))
+        if big:
+            L = draw(st.integers(20, max(21, T // 2)))
         labels = []
         for i in range(L):
             if labels and draw(st.integers(0, 3)) == 0:
